@@ -79,7 +79,7 @@ theorem step_learn (cfg : Cfg) (s : State) (T : ℕ) (r : Bool) (h : s.running =
         .setup (setupLearn s T r).num (setupLearn s T r).total :: (loopHead (setupLearn s T r)).2) := by
   simp [step, applicable, h]
 
-theorem step_env (cfg : Cfg) (s : State) (a : Bool) (d : ℕ) (k : Option ℕ) (h : s.running = true) :
+theorem step_env (cfg : Cfg) (s : State) (a : Bool) (d : ℕ) (k : List Bool) (h : s.running = true) :
     step cfg s (.env a d k) = envStep cfg s a d k := by
   simp [step, applicable, h]
 
@@ -87,7 +87,7 @@ theorem step_learn_running (cfg : Cfg) (s : State) (T : ℕ) (r : Bool) (h : s.r
     step cfg s (.learn T r) = (s, []) := by
   simp [step, applicable, h]
 
-theorem step_env_idle (cfg : Cfg) (s : State) (a : Bool) (d : ℕ) (k : Option ℕ) (h : s.running = false) :
+theorem step_env_idle (cfg : Cfg) (s : State) (a : Bool) (d : ℕ) (k : List Bool) (h : s.running = false) :
     step cfg s (.env a d k) = (s, []) := by
   simp [step, applicable, h]
 
@@ -102,7 +102,7 @@ theorem loopHead_cases (s : State) :
   · left; simp [h]
   · right; simp [h]; omega
 
-theorem trainOn_eq (nEnvs : ℕ) (c : OnCfg) (s : State) (kl : Option ℕ) :
+theorem trainOn_eq (nEnvs : ℕ) (c : OnCfg) (s : State) (kl : List Bool) :
     trainOn nEnvs c s kl =
       ({ s with nUpdates := s.nUpdates + (onTrainCounts nEnvs c kl).2,
                 optSteps := s.optSteps + (onTrainCounts nEnvs c kl).1 },
@@ -124,13 +124,13 @@ theorem trainOff_cases (nEnvs : ℕ) (c : OffCfg) (s : State) :
     · left; simp [h1, h2]
   · left; simp [h1]; omega
 
-theorem envStep_stop (cfg : Cfg) (s : State) (d : ℕ) (k : Option ℕ) :
+theorem envStep_stop (cfg : Cfg) (s : State) (d : ℕ) (k : List Bool) :
     envStep cfg s true d k =
       ({ s with num := s.num + cfg.nEnvs, running := false, stopped := true },
         [.step (s.num + cfg.nEnvs) s.progress, .finish (s.num + cfg.nEnvs) true]) := by
   simp [envStep]
 
-theorem envStep_on_mid (cfg : Cfg) (c : OnCfg) (s : State) (d : ℕ) (k : Option ℕ) (hk : cfg.kind = .on c)
+theorem envStep_on_mid (cfg : Cfg) (c : OnCfg) (s : State) (d : ℕ) (k : List Bool) (hk : cfg.kind = .on c)
     (h : s.colSteps + 1 < c.nSteps) :
     envStep cfg s false d k =
       ({ s with num := s.num + cfg.nEnvs, colSteps := s.colSteps + 1 }, [.step (s.num + cfg.nEnvs) s.progress]) := by
@@ -140,7 +140,7 @@ theorem envStep_on_mid (cfg : Cfg) (c : OnCfg) (s : State) (d : ℕ) (k : Option
 def onEndState (cfg : Cfg) (s : State) : State :=
   { s with num := s.num + cfg.nEnvs, colSteps := s.colSteps + 1, progress := progressOf (s.num + cfg.nEnvs) s.total }
 
-theorem envStep_on_end (cfg : Cfg) (c : OnCfg) (s : State) (d : ℕ) (k : Option ℕ) (hk : cfg.kind = .on c)
+theorem envStep_on_end (cfg : Cfg) (c : OnCfg) (s : State) (d : ℕ) (k : List Bool) (hk : cfg.kind = .on c)
     (h : ¬ s.colSteps + 1 < c.nSteps) :
     envStep cfg s false d k =
       ((loopHead (trainOn cfg.nEnvs c (onEndState cfg s) k).1).1,
@@ -154,7 +154,7 @@ def offStepState (cfg : Cfg) (s : State) (d : ℕ) : State :=
   { s with num := s.num + cfg.nEnvs, colSteps := s.colSteps + 1, progress := progressOf (s.num + cfg.nEnvs) s.total,
            colEps := s.colEps + d, episodeNum := s.episodeNum + d }
 
-theorem envStep_off_mid (cfg : Cfg) (c : OffCfg) (s : State) (d : ℕ) (k : Option ℕ) (hk : cfg.kind = .off c)
+theorem envStep_off_mid (cfg : Cfg) (c : OffCfg) (s : State) (d : ℕ) (k : List Bool) (hk : cfg.kind = .off c)
     (h : shouldCollectMore c (s.colSteps + 1) (s.colEps + d) = true) :
     envStep cfg s false d k =
       (offStepState cfg s d,
@@ -162,7 +162,7 @@ theorem envStep_off_mid (cfg : Cfg) (c : OffCfg) (s : State) (d : ℕ) (k : Opti
           .progress (s.num + cfg.nEnvs) s.total (progressOf (s.num + cfg.nEnvs) s.total)]) := by
   simp [envStep, hk, h, offStepState]
 
-theorem envStep_off_end (cfg : Cfg) (c : OffCfg) (s : State) (d : ℕ) (k : Option ℕ) (hk : cfg.kind = .off c)
+theorem envStep_off_end (cfg : Cfg) (c : OffCfg) (s : State) (d : ℕ) (k : List Bool) (hk : cfg.kind = .off c)
     (h : shouldCollectMore c (s.colSteps + 1) (s.colEps + d) = false) :
     envStep cfg s false d k =
       ((loopHead (trainOff cfg.nEnvs c (offStepState cfg s d)).1).1,
@@ -560,7 +560,7 @@ theorem onInv_learn (cfg : Cfg) (c : OnCfg) (cnt : Bool) (hL : 0 < c.nSteps) (s0
     exact ⟨e1, by omega, Or.inl trivial, fun _ => ⟨e4, e5⟩⟩
 
 theorem onInv_env (cfg : Cfg) (c : OnCfg) (cnt : Bool) (hk : cfg.kind = .on c) (T start o0 u0 per perU : ℕ) (s : State)
-    (a : Bool) (d : ℕ) (k : Option ℕ) (hc : cnt = true → onTrainCounts cfg.nEnvs c k = (per, perU))
+    (a : Bool) (d : ℕ) (k : List Bool) (hc : cnt = true → onTrainCounts cfg.nEnvs c k = (per, perU))
     (h : OnInv cfg c cnt T start o0 u0 per perU s) :
     OnInv cfg c cnt T start o0 u0 per perU (step cfg s (.env a d k)).1 := by
   cases hr : s.running
@@ -678,7 +678,7 @@ theorem offInv_learn (cfg : Cfg) (c : OffCfg) (hL : 0 < c.freq) (s0 : State) (h0
     exact ⟨e1, by omega, Or.inl trivial, e4, e5⟩
 
 theorem offInv_env (cfg : Cfg) (c : OffCfg) (hk : cfg.kind = .off c) (hu : c.unit = .step) (hn : 0 < cfg.nEnvs)
-    (T start o0 u0 : ℕ) (s : State) (a : Bool) (d : ℕ) (k : Option ℕ)
+    (T start o0 u0 : ℕ) (s : State) (a : Bool) (d : ℕ) (k : List Bool)
     (h : OffInv cfg c T start o0 u0 s) : OffInv cfg c T start o0 u0 (step cfg s (.env a d k)).1 := by
   cases hr : s.running
   · rw [step_env_idle _ _ _ _ _ hr]; exact h
@@ -785,26 +785,87 @@ theorem actorSteps_closed (d u g : ℕ) (hd : 0 < d) : actorSteps d u g = (u + g
     · have : (u + g + 1) % d ≠ 0 := fun h => hdiv (Nat.dvd_of_mod_eq_zero h)
       simp [hdiv, this]
 
-/-! ### PPO's KL early exit can only remove optimizer steps -/
+/-! ### PPO's KL early exit: the first exceeding minibatch ends `train()` before its optimizer step -/
 
-theorem onTrainCounts_le (nEnvs : ℕ) (c : OnCfg) (kl : Option ℕ) (h : c.a2c = false) :
-    (onTrainCounts nEnvs c kl).1 ≤ ppoFull nEnvs c ∧ (onTrainCounts nEnvs c kl).2 ≤ c.nEpochs := by
+theorem firstTrue_some (l : List Bool) (j : ℕ) (h : firstTrue l = some j) :
+    j < l.length ∧ l.getD j false = true ∧ ∀ i, i < j → l.getD i false = false := by
+  induction l generalizing j with
+  | nil => simp [firstTrue] at h
+  | cons b t ih =>
+    cases b with
+    | true =>
+      simp only [firstTrue, Option.some.injEq] at h
+      subst h
+      simp
+    | false =>
+      simp only [firstTrue, Option.map_eq_some_iff] at h
+      obtain ⟨j', hj', rfl⟩ := h
+      obtain ⟨h1, h2, h3⟩ := ih j' hj'
+      refine ⟨by simp; omega, by simpa using h2, ?_⟩
+      intro i hi
+      cases i with
+      | zero => simp
+      | succ i => simpa using h3 i (by omega)
+
+theorem firstTrue_none (l : List Bool) (h : firstTrue l = none) : ∀ i, l.getD i false = false := by
+  induction l with
+  | nil => simp
+  | cons b t ih =>
+    cases b with
+    | true => simp [firstTrue] at h
+    | false =>
+      simp only [firstTrue, Option.map_eq_none_iff] at h
+      intro i
+      cases i with
+      | zero => simp
+      | succ i => simpa using ih h i
+
+theorem getD_take (l : List Bool) (n i : ℕ) (h : i < n) : (l.take n).getD i false = l.getD i false := by
+  simp [List.getD_eq_getElem?_getD, h]
+
+/-- exact count: `u` optimizer steps, where `u` is the index of the first minibatch (among the `full` ones of the
+call) whose KL flag is set, or `full` when none is -/
+theorem onTrainCounts_exact (nEnvs : ℕ) (c : OnCfg) (kl : List Bool) (h : c.a2c = false) :
+    (onTrainCounts nEnvs c kl).1 ≤ ppoFull nEnvs c ∧
+      (∀ i, i < (onTrainCounts nEnvs c kl).1 → kl.getD i false = false) ∧
+      ((onTrainCounts nEnvs c kl).1 < ppoFull nEnvs c → kl.getD (onTrainCounts nEnvs c kl).1 false = true) ∧
+      ((onTrainCounts nEnvs c kl).1 < ppoFull nEnvs c →
+        (onTrainCounts nEnvs c kl).2 = (onTrainCounts nEnvs c kl).1 / nBatches (c.nSteps * nEnvs) c.batch + 1) ∧
+      ((onTrainCounts nEnvs c kl).1 = ppoFull nEnvs c → (onTrainCounts nEnvs c kl).2 = c.nEpochs) := by
   unfold onTrainCounts
   simp only [h, Bool.false_eq_true, if_false]
-  cases kl with
-  | none => simp
+  cases hf : firstTrue (kl.take (ppoFull nEnvs c)) with
+  | none =>
+    have hn := firstTrue_none _ hf
+    refine ⟨Nat.le_refl _, fun i hi => ?_, fun hlt => absurd hlt (Nat.lt_irrefl _), fun hlt => absurd hlt (Nat.lt_irrefl _),
+      fun _ => rfl⟩
+    have hi' : i < ppoFull nEnvs c := hi
+    rw [← getD_take kl (ppoFull nEnvs c) i hi']; exact hn i
   | some j =>
-    by_cases hj : j < ppoFull nEnvs c
-    · simp only [hj, if_true]
-      refine ⟨by omega, ?_⟩
-      unfold ppoFull at hj
-      have hnb : 0 < nBatches (c.nSteps * nEnvs) c.batch := by
-        rcases Nat.eq_zero_or_pos (nBatches (c.nSteps * nEnvs) c.batch) with h0 | h0
-        · rw [h0] at hj; simp at hj
-        · exact h0
-      have : j / nBatches (c.nSteps * nEnvs) c.batch < c.nEpochs := (Nat.div_lt_iff_lt_mul hnb).mpr hj
+    obtain ⟨h1, h2, h3⟩ := firstTrue_some _ j hf
+    have hj : j < ppoFull nEnvs c := by
+      have := List.length_take_le (ppoFull nEnvs c) kl
       omega
-    · simp [hj]
+    refine ⟨Nat.le_of_lt hj, fun i hi => ?_, fun _ => ?_, fun _ => rfl, fun he => absurd he (Nat.ne_of_lt hj)⟩
+    · have hi' : i < j := hi
+      rw [← getD_take kl (ppoFull nEnvs c) i (by omega)]; exact h3 i hi'
+    · show kl.getD j false = true
+      rw [← getD_take kl (ppoFull nEnvs c) j hj]; exact h2
+
+theorem onTrainCounts_le (nEnvs : ℕ) (c : OnCfg) (kl : List Bool) (h : c.a2c = false) :
+    (onTrainCounts nEnvs c kl).1 ≤ ppoFull nEnvs c ∧ (onTrainCounts nEnvs c kl).2 ≤ c.nEpochs := by
+  obtain ⟨h1, _, _, h4, h5⟩ := onTrainCounts_exact nEnvs c kl h
+  refine ⟨h1, ?_⟩
+  rcases Nat.lt_or_eq_of_le h1 with hlt | heq
+  · rw [h4 hlt]
+    unfold ppoFull at hlt
+    have hnb : 0 < nBatches (c.nSteps * nEnvs) c.batch := by
+      rcases Nat.eq_zero_or_pos (nBatches (c.nSteps * nEnvs) c.batch) with h0 | h0
+      · rw [h0] at hlt; simp at hlt
+      · exact h0
+    have := (Nat.div_lt_iff_lt_mul hnb).mpr hlt
+    omega
+  · rw [h5 heq]
 
 /-! ### the linear schedule (`get_linear_fn`) -/
 
@@ -996,7 +1057,7 @@ theorem trainOff_frame (nEnvs : ℕ) (c : OffCfg) (s : State) :
       (trainOff nEnvs c s).1.start = s.start := by
   rcases trainOff_cases nEnvs c s with ⟨h, _⟩ | ⟨h, _⟩ <;> rw [h] <;> simp
 
-theorem step_env_clocks (cfg : Cfg) (s : State) (a : Bool) (d : ℕ) (k : Option ℕ) (h : s.running = true) :
+theorem step_env_clocks (cfg : Cfg) (s : State) (a : Bool) (d : ℕ) (k : List Bool) (h : s.running = true) :
     (step cfg s (.env a d k)).1.num = s.num + cfg.nEnvs ∧ (step cfg s (.env a d k)).1.total = s.total ∧
       (step cfg s (.env a d k)).1.start = s.start := by
   rw [step_env _ _ _ _ _ h]
@@ -1022,7 +1083,7 @@ theorem trains_loopHead (s : State) : trains (loopHead s).2 = [] := by
   rcases loopHead_cases s with ⟨h, _⟩ | ⟨h, _⟩ <;> rw [h] <;> simp [trains]
 
 theorem trains_on_step (cfg : Cfg) (c : OnCfg) (hk : cfg.kind = .on c) (s : State) (hr : s.running = true)
-    (d : ℕ) (k : Option ℕ) :
+    (d : ℕ) (k : List Bool) :
     trains (step cfg s (.env false d k)).2 =
       if s.colSteps + 1 < c.nSteps then [] else [(s.num + cfg.nEnvs, (onTrainCounts cfg.nEnvs c k).1)] := by
   rw [step_env _ _ _ _ _ hr]
@@ -1033,7 +1094,7 @@ theorem trains_on_step (cfg : Cfg) (c : OnCfg) (hk : cfg.kind = .on c) (s : Stat
       List.nil_append]
 
 theorem trains_off_step (cfg : Cfg) (c : OffCfg) (hk : cfg.kind = .off c) (s : State) (hr : s.running = true)
-    (d : ℕ) (k : Option ℕ) :
+    (d : ℕ) (k : List Bool) :
     trains (step cfg s (.env false d k)).2 =
       if shouldCollectMore c (s.colSteps + 1) (s.colEps + d) = false ∧ 0 < s.num + cfg.nEnvs ∧
           c.learningStarts < s.num + cfg.nEnvs ∧ 0 < gradStepsOf cfg.nEnvs c (s.colSteps + 1)
